@@ -289,6 +289,8 @@ const FRAGMENTS: &[&str] = &[
     "\u{1f600}", "\u{10ffff}",
     // byte order mark (RFC 8259 section 8.1: not part of a JSON text)
     "\u{feff}",
+    // escape forms other languages have: \U + 8 hex digits, \u{...}, \x41, octal, a valid \u0041
+    "\\U00000041", "\\U0001F600", "\\u{41}", "\\x41", "\\101", "\\u0041", "\\ud83d\\ude00",
 ];
 const STRUCT_FRAGMENTS: &[&str] = &["{", "}", "[", "]", ",", ":", "\"\"", "\"a\"", "0", "-1", "1.5e1", "true", "null", " ", "\n", "1"];
 
@@ -404,7 +406,7 @@ fn main() {
     stats.max("string_alphabet_length", lstr as u64);
     stats.max("nesting_alphabet_length", lnest as u64);
     let mut cov = vcore::Map::new();
-    cov.insert("rule".into(), json!("all sequences of 1..=k fragments over a 46-fragment JSON alphabet (structure, quotes, every escape form, bad escapes, digits, signs, exponent letters, literals and a truncated literal, ASCII/non-ASCII letters, U+001F, U+007F, every RFC whitespace, U+00A0, U+000C, fullwidth hex digit/letter, Arabic-Indic digit, U+0085, U+1F600, U+10FFFF, U+FEFF); all sequences of k+1..=ks fragments over 16 structural fragments; character-level exhaustive strings over {0,1,-,+,.,e,E}, over {\",\\,u,0,A,n,x,U+001F,é,U+FF10,U+007F,U+1F600} and over {[,],{,},:,',',0,\"} up to the stated lengths. JsonParser::parse(Rule::json, s) must be Ok exactly when an RFC 8259 recursive-descent recogniser accepts, and then return exactly the recogniser's tree json(value(..), EOI) with object/pair/array/string/number/bool/null nodes and byte spans. Non-trivial: accepted texts, and rejected texts containing a quote, bracket, brace or digit"));
+    cov.insert("rule".into(), json!("all sequences of 1..=k fragments over a 53-fragment JSON alphabet (structure, quotes, every escape form, bad escapes, digits, signs, exponent letters, literals and a truncated literal, ASCII/non-ASCII letters, U+001F, U+007F, every RFC whitespace, U+00A0, U+000C, fullwidth hex digit/letter, Arabic-Indic digit, U+0085, U+1F600, U+10FFFF, U+FEFF); all sequences of k+1..=ks fragments over 16 structural fragments; character-level exhaustive strings over {0,1,-,+,.,e,E}, over {\",\\,u,0,A,n,x,U+001F,é,U+FF10,U+007F,U+1F600} and over {[,],{,},:,',',0,\"} up to the stated lengths. JsonParser::parse(Rule::json, s) must be Ok exactly when an RFC 8259 recursive-descent recogniser accepts, and then return exactly the recogniser's tree json(value(..), EOI) with object/pair/array/string/number/bool/null nodes and byte spans. Non-trivial: accepted texts, and rejected texts containing a quote, bracket, brace or digit"));
     cov.insert("exhaustive".into(), json!(true));
     verdict::conclude(verdict::Report {
         property: "C18",
